@@ -426,10 +426,15 @@ func init() {
 			return runC15("quick", 0)
 		},
 	}
-	gridCheck("C16", []func() GridDriver{
+	c16grids := []func() GridDriver{}
+	for _, pre := range findDumps() {
+		pre := pre
+		c16grids = append(c16grids, func() GridDriver { return NewDumpGrid(pre) })
+	}
+	gridCheck("C16", append(c16grids, []func() GridDriver{
 		func() GridDriver { return NewUpGrid() },
 		func() GridDriver { return NewGateGrid(1) }, func() GridDriver { return NewGateGrid(3) }, func() GridDriver { return NewGateGrid(4) }, func() GridDriver { return NewGateGrid(7) },
-	}, 30, 150, nil)
+	}...), 30, 150, nil)
 	{
 		inner := Registry["C16"]
 		Registry["C16"] = &Check{
